@@ -1,0 +1,77 @@
+//go:build verif
+
+package memory
+
+// Contracts for gocv (contract-based deductive verification, /verif).
+// The in-memory iterator against the abstract contract every backend must meet: positions are
+// indices into the sorted key list, -1 = before the first / invalid, len = past the end.
+
+// key <= k in byte order (bytes.Compare is a dependency: an uninterpreted total preorder here)
+//@ ghost func cmpBytes(a []byte, b []byte) int
+//@ extern func bytes.Compare
+//@   ensures result == cmpBytes(a, b)
+
+//@ func (*iterator).Valid
+//@   props C15
+//@   arith int
+//@   requires i != nil && !i.closed
+//@   ensures result <==> (0 <= i.curInd && i.curInd < len(i.keys))
+
+//@ func (*iterator).First
+//@   props C15
+//@   arith int
+//@   requires i != nil && !i.closed
+//@   modifies i.curInd
+//@   ensures i.curInd == 0 && (result <==> len(i.keys) > 0)
+
+//@ func (*iterator).Next
+//@   props C15
+//@   arith int
+//@   requires i != nil && !i.closed && i.curInd < (1<<62)
+//@   modifies i.curInd
+//@   ensures i.curInd == old(i.curInd) + 1 && (result <==> (0 <= i.curInd && i.curInd < len(i.keys)))
+
+// Prev: from the first key the iterator becomes invalid (-1); from invalid it goes to the first
+// key; from past-the-end it lands on the last key.
+//@ func (*iterator).Prev
+//@   props C15
+//@   arith int
+//@   requires i != nil && !i.closed && -1 <= i.curInd && i.curInd <= len(i.keys)
+//@   modifies i.curInd
+//@   ensures from_first: old(i.curInd) == 0 ==> i.curInd == -1 && !result
+//@   ensures from_invalid: old(i.curInd) == -1 ==> i.curInd == 0 && (result <==> len(i.keys) > 0)
+//@   ensures step_back: old(i.curInd) > 0 ==> i.curInd == old(i.curInd) - 1 && result
+//@   ensures past_end_gives_last: old(i.curInd) == len(i.keys) && len(i.keys) > 0 ==> i.curInd == len(i.keys) - 1 && result
+
+// Seek: the least position whose key is >= the sought key, else past the end.
+//@ func (*iterator).Seek
+//@   props C15
+//@   arith int
+//@   requires i != nil && !i.closed
+//@   modifies i.curInd
+//@   loop 1: invariant bounds: -1 <= rangeindex && rangeindex < len(i.keys)
+//@   loop 1: invariant smaller: forall j int :: 0 <= j && j <= rangeindex ==> cmpBytes(key, strbytes(i.keys[j])) > 0
+//@   ensures found: result ==> 0 <= i.curInd && i.curInd < len(i.keys) && cmpBytes(key, strbytes(i.keys[i.curInd])) <= 0 && (forall j int :: 0 <= j && j < i.curInd ==> cmpBytes(key, strbytes(i.keys[j])) > 0)
+//@   ensures past_end: !result ==> i.curInd == len(i.keys) && (forall j int :: 0 <= j && j < len(i.keys) ==> cmpBytes(key, strbytes(i.keys[j])) > 0)
+
+// ---- opening an iterator: no key under the prefix is left out ----------------------------------
+//@ ghost func hasPrefix(s string, p string) bool
+//@ extern func strings.HasPrefix
+//@   ensures result == hasPrefix(s, prefix)
+//@ extern func sort.Strings
+//@   modifies x[..]
+//@   ensures forall s string :: (exists j int :: 0 <= j && j < len(x) && x[j] == s) <==> (exists j int :: 0 <= j && j < len(x) && old(x[j]) == s)
+//@ extern func (*sync.RWMutex).RLock
+//@ extern func (*sync.RWMutex).RUnlock
+
+// Every stored key that has the prefix - and lies below the prefix's upper bound when one is
+// requested AND exists - is among the iterator's keys. When the prefix has no upper bound (it is
+// empty or all 0xff) "with upper bound" means unbounded, as it does for Pebble.
+//@ func (*Database).NewIterator
+//@   props C15
+//@   arith int
+//@   requires d != nil
+//@   modifies *
+//@   loop 2: invariant bounds: -1 <= rangeindex && rangeindex < len(keys)
+//@   loop 1: invariant found: forall k string :: visited(k) && hasPrefix(k, pr) && (!withUpperBound || upperBound == nil || strlt(k, ub)) ==> (exists j int :: 0 <= j && j < len(keys) && keys[j] == k)
+//@   ensures complete: result1 == nil && (!withUpperBound || (forall j int :: 0 <= j && j < len(prefix) ==> prefix[j] == 255)) ==> (forall k string :: in(old(d.db), k) && hasPrefix(k, string(prefix)) ==> (exists j int :: 0 <= j && j < len(cast(result0, *iterator).keys) && cast(result0, *iterator).keys[j] == k))
